@@ -138,6 +138,23 @@ func hRunCompressor(tag string, kind, depth int, src, dst []byte) (int, error) {
 // first period and `tail` symbolic bytes at the end (long runs / periodic data of C10's quantifier).
 func hSource(n int) []byte {
 	period := vfParam("period")
+	if period <= -60000 {
+		// long-literal-run family: -period concrete incompressible bytes (a literal run whose length
+		// code needs more than 255 extension bytes), then a run of one byte long enough for the
+		// fast compressor's accelerated scan to find it, then `tail` symbolic bytes
+		l := -period
+		tail := vfParam("tail")
+		src := make([]byte, 0, n)
+		x := uint32(2463534242)
+		for i := 0; i < l; i++ {
+			x = x*1664525 + 1013904223
+			src = append(src, byte(x>>24))
+		}
+		for len(src) < n-tail {
+			src = append(src, 0x07)
+		}
+		return append(src, vfBytes("tail", n-len(src))...)
+	}
 	if period < 0 {
 		// literal-run family: -period concrete pairwise-distinct bytes (no 4-byte repeats), then the
 		// same bytes again (a match after a literal run of exactly that length), then `tail`
